@@ -457,11 +457,15 @@ impl Harness for C05 {
         if big {
             let b = rng.below(4) as u8;
             let n = 65_536 + k + rng.below(40);
-            reads.push(Read {
-                seq: vec![b; n],
-                exts: 0,
-                label: 0,
-            });
+            // the run is followed by another base and a tail: the flank of the LAST observation of
+            // the saturated k-mer (beyond the 65535th) is new
+            let mut seq = vec![b; n];
+            if rng.chance(3, 4) {
+                seq.push((b + 1 + rng.below(3) as u8) % 4);
+                let tl = k + rng.below(6);
+                seq.extend(dna::random_seq(rng, tl, &[0, 1, 2, 3]));
+            }
+            reads.push(Read { seq, exts: 0, label: 0 });
             reads.push(Read {
                 seq: dna::random_seq(rng, k + 5, &[0, 1, 2, 3]),
                 exts: 0,
